@@ -1,10 +1,13 @@
 (* C01/C13 — syntax, values and the pure operators of the FEEL core fragment, transliterated from
    feel-evaluator/src/builders.rs (build_add … build_or, eval_ternary_equality, eval_in_xxx).
    Owner: lead.  No proofs in this file.
-   Numbers are integers (Z): + - * exact; / only when exact, ** only for exponents 0..64; any other
-   numeric result is VPoison ("a number the model does not compute"), which the check skips.  *)
+   Numbers are decimal128 data (coq/Base/Dec.v) and + - * / are the correctly rounded operations of
+   coq/Base/DecRound.v (the subject of C02, imported, not copied); an overflow is null.  `**` is modelled
+   for natural exponents with an exact result; any other power is VPoison ("a number the model does
+   not compute"), which the check skips.  *)
 From Coq Require Import List ZArith NArith Bool.
 From DV Require C16.Model.
+From DV Require Import Base.Dec Base.DecRound.
 Import ListNotations.
 Open Scope Z_scope.
 
@@ -12,7 +15,7 @@ Inductive binop := Add | Sub | Mul | Div | Exp | Eq | Ne | Lt | Le | Gt | Ge | A
 Inductive cmpop := CLt | CLe | CGt | CGe.
 
 Inductive expr :=
-| ENull | EBool (b : bool) | ENum (z : Z) | EStr (s : list N) | EName (n : N)
+| ENull | EBool (b : bool) | ENum (d : dec) | EStr (s : list N) | EName (n : N)
 | EBin (o : binop) (a b : expr)
 | ENeg (a : expr)
 | EIf (c t e : expr)
@@ -34,7 +37,7 @@ with test :=
 with dom := DList (e : expr) | DRange (lo hi : expr).
 
 Inductive value :=
-| VNull | VBool (b : bool) | VNum (z : Z) | VStr (s : list N)
+| VNull | VBool (b : bool) | VNum (d : dec) | VStr (s : list N)
 | VList (l : list value)
 | VCtx (es : list (N * value))                (* BTreeMap: sorted by key, keys distinct *)
 | VRange (lo : value) (lc : bool) (hi : value) (hc : bool)
@@ -68,11 +71,22 @@ Definition set_top (k : N) (v : value) (S : stack) : stack :=
   match S with [] => [] | c :: r => ctx_set k v c :: r end.
 
 (* ---------- numbers ---------- *)
-Definition num_div (a b : Z) : value :=
-  if b =? 0 then VNull else if (a mod b) =? 0 then VNum (a / b) else VPoison.
-Definition num_pow (a b : Z) : value :=
-  if (a =? 0) && (b =? 0) then VNull        (* decNumber: 0 ** 0 is invalid *)
-  else if (0 <=? b) && (b <=? 64) then VNum (a ^ b) else VPoison.
+Definition enum (z : Z) : expr := ENum (of_Z z 0).
+Definition vnum (z : Z) : value := VNum (of_Z z 0).
+Definition of_num (o : option dec) : value := match o with Some d => VNum d | None => VNull end.
+Definition num_eqb (a b : dec) : bool := match dcmp a b with Datatypes.Eq => true | _ => false end.
+Definition num_ltb (a b : dec) : bool := match dcmp a b with Datatypes.Lt => true | _ => false end.
+Definition num_leb (a b : dec) : bool := match dcmp a b with Datatypes.Gt => false | _ => true end.
+Definition num_div (a b : dec) : value := if dis_zero b then VNull else of_num (ddiv a b).
+(* natural exponents whose exact result fits 34 digits; everything else is left to C02 *)
+Definition num_pow (a b : dec) : value :=
+  if dis_zero a && dis_zero b then VNull        (* decNumber: 0 ** 0 is invalid *)
+  else if is_integral b && (0 <=? ztrunc b) && (ztrunc b <=? 64) then
+    let n := Z.to_N (ztrunc b) in
+    if (ndigits (coef a ^ n) <=? PREC)%N then of_num (dpow_nat a n) else VPoison
+  else VPoison.
+(* FeelNumber -> isize / usize conversions: integral values only *)
+Definition num_int (d : dec) : option Z := if is_integral d then Some (ztrunc d) else None.
 
 (* ---------- strings: Rust compares UTF-8 bytes = code point order ---------- *)
 Fixpoint str_cmp (a b : list N) : comparison :=
@@ -90,7 +104,7 @@ Fixpoint teq (fuel : nat) (a b : value) : option bool :=
   match a, b with
   | VPoison, _ | _, VPoison => None
   | VBool x, VBool y => Some (Bool.eqb x y)
-  | VNum x, VNum y => Some (x =? y)
+  | VNum x, VNum y => Some (num_eqb x y)
   | VStr x, VStr y => Some (str_eqb x y)
   | VNull, VNull => Some true
   | VCtx x, VCtx y =>
@@ -137,10 +151,10 @@ Definition poisoned (a b : value) : bool :=
 
 Definition cmp_lt (a b : value) : value :=
   match a, b with
-  | VNum x, VNum y => VBool (x <? y) | VStr x, VStr y => VBool (str_ltb x y) | _, _ => VNull end.
+  | VNum x, VNum y => VBool (num_ltb x y) | VStr x, VStr y => VBool (str_ltb x y) | _, _ => VNull end.
 Definition cmp_le (a b : value) : value :=
   match a, b with
-  | VNum x, VNum y => VBool (x <=? y) | VStr x, VStr y => VBool (str_leb x y) | _, _ => VNull end.
+  | VNum x, VNum y => VBool (num_leb x y) | VStr x, VStr y => VBool (str_leb x y) | _, _ => VNull end.
 
 Definition and3 (a b : value) : value :=
   match a with
@@ -156,9 +170,9 @@ Definition or3 (a b : value) : value :=
 Definition binop_eval (o : binop) (a b : value) : value :=
   if poisoned a b then VPoison else
   match o with
-  | Add => match a, b with VNum x, VNum y => VNum (x + y) | VStr x, VStr y => VStr (x ++ y) | _, _ => VNull end
-  | Sub => match a, b with VNum x, VNum y => VNum (x - y) | _, _ => VNull end
-  | Mul => match a, b with VNum x, VNum y => VNum (x * y) | _, _ => VNull end
+  | Add => match a, b with VNum x, VNum y => of_num (dadd x y) | VStr x, VStr y => VStr (x ++ y) | _, _ => VNull end
+  | Sub => match a, b with VNum x, VNum y => of_num (dsub x y) | _, _ => VNull end
+  | Mul => match a, b with VNum x, VNum y => of_num (dmul x y) | _, _ => VNull end
   | Div => match a, b with VNum x, VNum y => num_div x y | _, _ => VNull end
   | Exp => match a, b with VNum x, VNum y => num_pow x y | _, _ => VNull end
   | Eq => of_opt (veq a b)
@@ -172,12 +186,12 @@ Definition binop_eval (o : binop) (a b : value) : value :=
   end.
 
 Definition neg_eval (a : value) : value :=
-  match a with VNum x => VNum (- x) | VPoison => VPoison | _ => VNull end.
+  match a with VNum x => VNum (dminus x) | VPoison => VPoison | _ => VNull end.
 
 Definition between_eval (x lo hi : value) : value :=
   match x, lo, hi with
   | VPoison, _, _ | _, VPoison, _ | _, _, VPoison => VPoison
-  | VNum v, VNum l, VNum h => VBool ((l <=? v) && (v <=? h))
+  | VNum v, VNum l, VNum h => VBool (num_leb l v && num_leb v h)
   | VStr v, VStr l, VStr h => VBool (str_leb l v && str_leb v h)
   | _, _, _ => VNull
   end.
@@ -189,7 +203,7 @@ Definition in_unary (o : cmpop) (x r : value) : value :=
 
 Definition in_range (x lo : value) (lc : bool) (hi : value) (hc : bool) : value :=
   match x, lo, hi with
-  | VNum v, VNum l, VNum h => VBool ((if lc then l <=? v else l <? v) && (if hc then v <=? h else v <? h))
+  | VNum v, VNum l, VNum h => VBool ((if lc then num_leb l v else num_ltb l v) && (if hc then num_leb v h else num_ltb v h))
   | VStr v, VStr l, VStr h => VBool ((if lc then str_leb l v else str_ltb l v) && (if hc then str_leb v h else str_ltb v h))
   | _, _, _ => VNull
   end.
@@ -273,7 +287,7 @@ Definition nth1 (l : list value) (i : Z) : value :=        (* 1-based, negative 
 
 Definition filter_finish (items kept : list value) (outer : value) : value :=
   match outer with
-  | VNum i => nth1 items i
+  | VNum d => match num_int d with Some i => nth1 items i | None => VNull end     (* the index must be an integer *)
   | VPoison => VPoison
   | _ => match kept with [x] => x | _ => VList kept end
   end.
@@ -282,7 +296,7 @@ Definition filter_finish (items kept : list value) (outer : value) : value :=
 Definition filter_scalar (v outer : value) : value :=
   match outer with
   | VBool true => VList [v] | VBool false => VList []
-  | VNum i => if i =? 1 then v else VNull
+  | VNum d => if num_eqb d (of_Z 1 0) then v else VNull
   | VPoison => VPoison
   | _ => VNull end.
 
@@ -290,8 +304,8 @@ Definition filter_scalar (v outer : value) : value :=
 Definition dom_values (v : value) : list value := match v with VList l => l | other => [other] end.
 Definition range_values (lo hi : Z) : list value :=
   if 100000 <? Z.abs (hi - lo) then [VPoison]        (* not enumerated by the model: the check skips such cases *)
-  else if lo <=? hi then map (fun i => VNum (lo + Z.of_nat i)) (seq 0 (Z.to_nat (hi - lo + 1)))
-  else map (fun i => VNum (lo - Z.of_nat i)) (seq 0 (Z.to_nat (lo - hi + 1))).
+  else if lo <=? hi then map (fun i => vnum (lo + Z.of_nat i)) (seq 0 (Z.to_nat (hi - lo + 1)))
+  else map (fun i => vnum (lo - Z.of_nat i)) (seq 0 (Z.to_nat (lo - hi + 1))).
 
 (* cartesian product in declaration order, the first variable outermost; a tuple is a context *)
 Fixpoint cart (ds : list (N * list value)) : list ctx :=
